@@ -73,19 +73,33 @@ def getBin (j : Json) : E Bin := do
   | [l, r] => pure (l, r)
   | _ => throw "bin = [l, r] expected"
 
-def getBinning (j : Json) : E Binning := do
+/-- `FixedWidthBinning(bin_width=w, bin_count=n, min=m)`: the constructor's decomposition of the requested minimum,
+    `times_min = int(floor(min / bin_width))` (the estimate with shift 0: `min - 0.0` is `min`) and
+    `shift = min - times_min * bin_width` -/
+def gridOfMin (fo : FloatOps) (w m : Rat) : Int × Rat :=
+  let t := fo.est w 0 m
+  (t, fo.shiftOf w t m)
+
+/-- a binning in JSON; a fixed-width one is given by `tmin` and `shift`, or (optional key `min`) by its first edge -/
+def getBinningWith (fo : FloatOps) (j : Json) : E Binning := do
   let t ← (← field j "t").getStr?
   if t == "static" then
     pure (.static (← getList getBin (← field j "bins")) (getBoolD j "ire" true))
   else if t == "fixed" then
     let w ← getRat (← field j "w")
-    let shift ← getRat (← field j "shift")
-    let tmin ← (← field j "tmin").getInt?
     let count ← (← field j "count").getNat?
+    let (tmin, shift) ← match ← getOpt getRat (fieldD j "min") with
+      | some m => pure (gridOfMin fo w m)
+      | none => do
+        let shift ← getRat (← field j "shift")
+        let tmin ← (← field j "tmin").getInt?
+        pure (tmin, shift)
     pure (.fixed { w := w, shift := shift, tmin := tmin, count := count,
                    align := getBoolD j "align" true, adaptive := getBoolD j "adaptive" false,
                    ire := getBoolD j "ire" false })
   else throw s!"unknown binning {t}"
+
+def getBinning (j : Json) : E Binning := getBinningWith FloatOps.ieee j
 
 def jStats (s : Stats) : Json :=
   if s.valid then
@@ -136,7 +150,7 @@ def step1 (fo : FloatOps) (fuel : Nat) (s : St) (op : Json) : E (St × Json) := 
     | .error _ => pure (s, Json.str "REFUSED")
   match name with
   | "construct" =>
-    let b ← getBinning (← field op "binning")
+    let b ← getBinningWith fo (← field op "binning")
     let vs ← getList getNRat (← field op "data")
     let ws ← getOpt (getList getRat) (fieldD op "weights")
     let wk ← getOpt getDType (fieldD op "wkind")
@@ -146,11 +160,11 @@ def step1 (fo : FloatOps) (fuel : Nat) (s : St) (op : Json) : E (St × Json) := 
       let h ← H1.construct fo b vs ws (wk.getD .i64) dt (getBoolD op "keep" true) (getBoolD op "dropna" true)
       pure (s.set out h, Json.str "ok")
   | "empty" =>
-    let b ← getBinning (← field op "binning")
+    let b ← getBinningWith fo (← field op "binning")
     let dt ← getOpt getDType (fieldD op "dtype")
     pure (s.set (← reg "out") (H1.empty fo b (getBoolD op "keep" true) dt), Json.str "ok")
   | "of_arrays" =>
-    let b ← getBinning (← field op "binning")
+    let b ← getBinningWith fo (← field op "binning")
     let f ← getList getRat (← field op "freq")
     let e ← getOpt (getList getRat) (fieldD op "err2")
     let u ← getNRat (fieldD op "under")
